@@ -146,16 +146,39 @@ def ns_extra_for(scenario):
 
 
 # --------------------------------------------------------------------------- reference side
+class record_warnings:
+    """Records the warnings that get through the process-wide filters WITHOUT saving and restoring those
+    filters (``warnings.catch_warnings`` would undo, and thereby hide, a filter that formulae leaves behind).
+    The process-wide base is "always", set once per process by ``base_warning_filters``."""
+
+    def __enter__(self):
+        self.old = warnings.showwarning
+        self.log = []
+
+        def show(message, category, filename, lineno, file=None, line=None):
+            self.log.append(warnings.WarningMessage(message, category, filename, lineno, file, line))
+
+        warnings.showwarning = show
+        return self.log
+
+    def __exit__(self, *exc):
+        warnings.showwarning = self.old
+        return False
+
+
+def base_warning_filters():
+    warnings.resetwarnings()
+    warnings.simplefilter("always")
+
+
 def _do_build(client, op, frame):
-    with warnings.catch_warnings(record=True) as wl:
-        warnings.simplefilter("always")
+    with record_warnings() as wl:
         dm = client["fn"](op["formula"], frame, op["na_action"], client["extra"])
     return dm, wl
 
 
 def _do_eval(obj, frame):
-    with warnings.catch_warnings(record=True) as wl:
-        warnings.simplefilter("always")
+    with record_warnings() as wl:
         res = obj.evaluate_new_data(frame)
     return res, wl
 
@@ -172,6 +195,7 @@ def observe_description(formula):
 
 def run_reference(req):
     """Executed in a pristine grandchild: set mode, build, optionally evaluate."""
+    base_warning_filters()
     formulae.config[KEY] = req["mode"]
     if "describe" in req:
         try:
@@ -1064,6 +1088,7 @@ class World:
 def run_scenario(scenario, oracles=None, ref=None, suppress=None, dump=False):
     """Run one scenario from a clean config; returns the result dict."""
     oracles = set(oracles if oracles is not None else ORACLES_OF[scenario["property"]])
+    base_warning_filters()
     formulae.config[KEY] = "error"
     needs_inj = any((op.get("fault") or {}).get("kind") == "inject" or op["op"].startswith("sweep")
                     for op in scenario["ops"])
